@@ -10,7 +10,13 @@ Forest == TLCGet(2)
 Ctx(n, keys) == [f |-> Forest, n |-> n, pos |-> 1, size |-> 1, vars |-> <<>>, cur |-> n, keys |-> keys]
 
 C10Step(s, ev) ==
-  IF ev.e = "Rules" THEN [ok |-> TRUE, st |-> [en |-> Entries(ev.tree), keys |-> IF "keys" \in DOMAIN ev THEN ev.keys ELSE <<>>], msg |-> ""]
+  IF ev.e = "Priority"       \* [text (the priority attribute), status (0: the transformation ran), chosen ("A" / "B" / "")]
+  THEN LET lexok == PriorityLexOk(ev.text)
+           want == PriorityPick(ev.text) IN
+       [ok |-> IF lexok THEN ev.status = 0 /\ (want = "?" \/ ev.chosen = want) ELSE ev.status # 0, st |-> s, cont |-> TRUE,
+        msg |-> "priority attribute " \o ToString(ev.text) \o (IF lexok THEN ": a number, rule " \o want \o " wins" ELSE ": not a number, an error")
+                \o "; status " \o ToString(ev.status) \o ", chosen " \o ev.chosen]
+  ELSE IF ev.e = "Rules" THEN [ok |-> TRUE, st |-> [en |-> Entries(ev.tree), keys |-> IF "keys" \in DOMAIN ev THEN ev.keys ELSE <<>>], msg |-> ""]
   ELSE LET n == <<ev.node[1], ev.node[2], ev.node[3]>>
            want == IF ev.via = "imports" THEN ImportsWinner(s.en, n, ev.mode, ev.from, Ctx(n, s.keys))
                    ELSE Winner(s.en, n, ev.mode, Ctx(n, s.keys))
